@@ -111,10 +111,32 @@ func vfReach(q *PriorityQueue) int {
 	return n
 }
 
+// vfPrevOK walks the list from the head and checks the prev pointers: head.prev == nil, n.next.prev == n.
+func vfPrevOK(q *PriorityQueue) bool {
+	if q.next == nil {
+		return true
+	}
+	if q.next.prev != nil {
+		return false
+	}
+	n := 0
+	for p := q.next; p.next != nil; p = p.next {
+		if p.next.prev != p {
+			return false
+		}
+		n++
+		if n > 1<<17 {
+			return false
+		}
+	}
+
+	return true
+}
+
 func vfJBEvent(st vfJBStep) vfM {
 	return vfM{
 		"a": st.A, "n": st.N, "ts": st.Ts, "b": st.B, "id": 0, "res": 0, "err": "", "ok": true,
-		"head": 0, "len": 0, "reach": 0, "ev": []string{}, "cnt": 0, "size": 0,
+		"head": 0, "len": 0, "reach": 0, "prevok": true, "ev": []string{}, "cnt": 0, "size": 0,
 	}
 }
 
@@ -172,6 +194,7 @@ func vfRunPQ(t *testing.T, sc *vfJBScript, out *vfWriter) {
 		ev["len"] = queue.Length()
 		reach := vfReach(queue)
 		ev["reach"] = reach
+		ev["prevok"] = vfPrevOK(queue)
 		out.Emit(ev)
 		if reach < 0 {
 			return // cyclic list: any further traversal may not terminate; the event above is the evidence
@@ -223,6 +246,7 @@ func vfRunJB(t *testing.T, sc *vfJBScript, out *vfWriter) {
 		ev["len"] = jb.packets.Length()
 		reach := vfReach(jb.packets)
 		ev["reach"] = reach
+		ev["prevok"] = vfPrevOK(jb.packets)
 		out.Emit(ev)
 		if reach < 0 {
 			return
@@ -299,6 +323,7 @@ func vfRunJBIcpt(t *testing.T, sc *vfJBScript, out *vfWriter) {
 		ev["len"] = ri.buffer.packets.Length()
 		reach := vfReach(ri.buffer.packets)
 		ev["reach"] = reach
+		ev["prevok"] = vfPrevOK(ri.buffer.packets)
 		out.Emit(ev)
 		if reach < 0 {
 			return
